@@ -424,6 +424,23 @@ func c19OneHistory(rng *hx.Rng, it int) hx.Case {
 		}
 		return rig.adaptor.RegisterNewNode()
 	}
+	// the gas settings in force (the operator changes them while the node runs); every transaction
+	// an endpoint receives carries the settings in force when the call was made
+	curPrice, curLimit := int64(ethGasPrice), uint64(ethGasLimit)
+	gasOf := func(step int) {
+		for e := 0; e < n; e++ {
+			for _, raw := range node(e).Txs() {
+				tx := new(types.Transaction)
+				if err := tx.UnmarshalBinary(raw); err != nil {
+					continue
+				}
+				if tx.Gas() != curLimit || tx.GasPrice().Cmp(big.NewInt(curPrice)) != 0 {
+					problems = append(problems, fmt.Sprintf("step %d: endpoint %d received a transaction with gas limit %d price %s; the settings in force are limit %d price %d", step, e, tx.Gas(), tx.GasPrice(), curLimit, curPrice))
+					return
+				}
+			}
+		}
+	}
 	broken := false
 	for step := 0; step < L && !broken; step++ {
 		for e := 0; e < n; e++ {
@@ -433,6 +450,13 @@ func c19OneHistory(rng *hx.Rng, it int) hx.Case {
 		k := rng.Intn(11)
 		if directed && step < 3 {
 			k = []int{10, 5, 9}[step]
+		}
+		if k != 10 && k >= 3 && (rng.Intn(3) == 0 || (step <= 1 && n > nws)) {
+			curPrice = 1000000000 + int64(rng.Intn(9000000))*1000
+			curLimit = uint64(200000 + rng.Intn(4000000))
+			rig.adaptor.SetGasPrice(big.NewInt(curPrice))
+			rig.adaptor.SetGasLimit(new(big.Int).SetUint64(curLimit))
+			tags = append(tags, "gas-settings-changed")
 		}
 		switch {
 		case k == 10: // ---- the node drops its connections and connects again
@@ -511,6 +535,7 @@ func c19OneHistory(rng *hx.Rng, it int) hx.Case {
 				}
 			}
 			callErr := call(ck, randWord(rng), randWord(rng))
+			gasOf(step)
 			var sent []string
 			stopped := false
 			accepted := 0
@@ -588,6 +613,7 @@ func c19OneHistory(rng *hx.Rng, it int) hx.Case {
 				}(i)
 			}
 			wg.Wait()
+			gasOf(step)
 			for e := 0; e < n; e++ {
 				node(e).NonceDelay = 0
 			}
